@@ -9,7 +9,12 @@ VERIF = os.path.dirname(os.path.dirname(os.path.abspath(__file__)))
 REPO = os.environ.get("VERIF_REPO", "/repo")
 SPEC = os.path.join(VERIF, "spec")
 HARNESS = os.path.join(VERIF, "harness")
-WORKROOT = os.path.join(VERIF, "_work")   # no dot: the controller derives map file names by replacing the first "." of the full path
+# Scratch directory. No dot may appear in its path: the controller derives map file names by replacing the first "." of the
+# full path. When this copy of /verif lives under a dotted path (a snapshot under ~/.vp/...), scratch goes to /tmp instead
+# (nothing a registered command needs is kept there: it is created and removed by each run).
+WORKROOT = os.environ.get("VERIF_WORK") or os.path.join(VERIF, "_work")
+if "." in WORKROOT:
+    WORKROOT = "/tmp/verif_work_%d" % os.getuid()
 REPLAYS = os.path.join(VERIF, "_work", "replays")
 TLA_CP = "/opt/veriftools/tla/tla2tools.jar:/opt/veriftools/tla/CommunityModules-deps.jar"
 NCPU = os.cpu_count() or 4
